@@ -498,6 +498,25 @@ class Summary:
                     _collect(d_)
         from . import terms as _t2
         _t2.INT_TERMS = ints
+        # counters: a loop-carried value that starts as an integer and is only ever updated to an integer (given that all such values
+        # are integers) is one - `change = 0; change += 1; change -= dosage[j]`
+        cands = {}
+        for ev_ in r.events:
+            if ev_.kind == 'carry':
+                entry_, body_ = ev_.data
+                if len(entry_) > 2 and isinstance(entry_[2], tuple):
+                    cands.setdefault(entry_, []).append(body_)
+        cands = {e_: b_ for e_, b_ in cands.items() if _t2.is_int_term(e_[2])}
+        while cands:
+            shapes_ = {_t2.int_shape(e_) for e_ in cands} - ints
+            ints |= shapes_
+            bad_ = [e_ for e_, bodies_ in cands.items() if not all(_t2.is_int_term(b_) for b_ in bodies_)]
+            ints -= shapes_
+            if not bad_:
+                ints |= shapes_
+                break
+            for e_ in bad_:
+                del cands[e_]
         sites = {}
         for t_, _c, _n in r.calls:
             if len(t_) > 4 and t_[4] is not None and not isinstance(t_[4], str):
